@@ -216,6 +216,12 @@ func equals(t types.Type, x, y value) bool {
 		return x == y.(*value)
 	case *vmchan:
 		return x == y.(*vmchan)
+	case *vmCtx:
+		yy, ok := y.(*vmCtx)
+		return ok && x == yy
+	case *wrapErr:
+		yy, ok := y.(*wrapErr)
+		return ok && x == yy
 	case unsafe.Pointer:
 		return x == y.(unsafe.Pointer)
 	case structure:
@@ -278,6 +284,10 @@ func hash(outer, t types.Type, x value) int {
 	case *value:
 		return int(uintptr(unsafe.Pointer(x)))
 	case *vmchan:
+		return int(uintptr(unsafe.Pointer(x)))
+	case *vmCtx:
+		return int(uintptr(unsafe.Pointer(x)))
+	case *wrapErr:
 		return int(uintptr(unsafe.Pointer(x)))
 	case unsafe.Pointer:
 		return int(uintptr(x))
